@@ -37,6 +37,7 @@ type Case struct {
 	Kind   string  `json:"kind"`
 	Shape  string  `json:"shape"`
 	Depth  int     `json:"depth"`
+	Init   bool    `json:"init,omitempty"` // the chain starts in the package's init function: Load itself fails
 }
 
 type builder struct {
@@ -260,7 +261,13 @@ func genCase(rt *rapid.T) *Case {
 		}
 		prev = fn{name: name, method: isMethod}
 	}
-	b.add("func Entry() {")
+	c.Init = rx.Chance(rt, "frominit", 1, 5)
+	declLine := 0
+	if c.Init {
+		declLine = b.add("func init() {")
+	} else {
+		b.add("func Entry() {")
+	}
 	b.add("\tfmt.Println(\"start\")")
 	var entryLine int
 	if prev.method {
@@ -270,12 +277,17 @@ func genCase(rt *rapid.T) *Case {
 		entryLine = b.add("\t%s(1)", prev.name)
 	}
 	b.add("\tfmt.Println(\"unreachable\")")
-	b.add("}")
+	closeLine := b.add("}")
 	b.add("")
 	b.add("func Reset() {")
 	b.add("\tdepth = 0")
 	b.add("}")
-	chain = append(chain, Frame{Func: "app.Entry", Line: entryLine})
+	if c.Init {
+		// init is called by the package's top-level code: no function name, a position inside the declaration
+		chain = append(chain, Frame{Func: "app.init", Line: entryLine}, Frame{Func: "", Line: declLine, Line2: closeLine})
+	} else {
+		chain = append(chain, Frame{Func: "app.Entry", Line: entryLine})
+	}
 	c.Chain = chain
 	c.Src = strings.Join(b.lines, "\n") + "\n"
 	return c
@@ -320,7 +332,10 @@ func run(c *Case, optimize bool) (goat.Result, []rec) {
 	defer goat.SetOptimize(true)
 	vm := goat.New()
 	r := vm.Load(goat.FS(map[string]string{"app/app.go": c.Src}), "app", goat.DefaultBudget)
-	if r.Failed() {
+	if c.Init && r.Err != nil && r.Panic == nil {
+		return r, parseErr(strings.TrimPrefix(r.Err.Error(), "error in run: "))
+	}
+	if r.Failed() || c.Init {
 		return r, nil
 	}
 	r = vm.Call("app.Entry", 0, goat.DefaultBudget)
@@ -350,6 +365,9 @@ func check(c *Case) *ev.Failure {
 	rr.Eval(1)
 	rr.Class("fault=" + c.Kind)
 	rr.Class("shape=" + c.Shape)
+	if c.Init {
+		rr.Class("chain_rooted_in_package_init")
+	}
 	if c.Depth >= 3 {
 		rr.Nontrivial(ev.Hash(c.Src))
 	}
